@@ -198,6 +198,7 @@ class HistSim {
   uint32_t nextId_ = 1;
   uint64_t lastOpFailable_ = 0, lastOpFaults_ = 0;
   bool faultsActive_ = false;
+  std::vector<size_t> poolsBefore_;  // pools per document after the previous op (SIZE_MAX: unknown)
 };
 
 Plan generate(const std::string& mode, uint64_t seed, uint64_t run);
